@@ -383,8 +383,10 @@ Step(s, e) ==
                  usable == IsFat32(s.raw) /\ s.raw.fi.ok /\ s.raw.fi.free >= 0 /\ s.raw.fi.free <= s.raw.g.n /\ ~DirtyBit(s.raw.st)
                  v05 == IF e.op = "mount" /\ Get(s, "fiBase", FALSE) /\ usable THEN Tag("C05.clean_stale", s.raw.fi.free = FreeCount(s.D.F)) ELSE {}
                  fiBase == IF e.op = "mount" THEN (~usable \/ s.raw.fi.free = FreeCount(s.D.F)) ELSE Get(s, "fiBase", FALSE)
+                 \* the table never links a used cluster to a free one, also when calls before failed half-way (Fat!LinksToUsed)
+                 vlf == IF Has(e, "raw") THEN Tag("C03.link_free", LinksToUsed(Dp.F)) ELSE {}
              IN [s |-> [s EXCEPT !.pm = pmS, !.raw = post, !.D = Dp, !.changed = changed, !.mountSt = mountSt, !.fiBase = fiBase],
-                 v |-> v3 \cup v12 \cup v05, dev |-> {}, note |-> {"PM"}]
+                 v |-> v3 \cup v12 \cup v05 \cup vlf, dev |-> {}, note |-> {"PM"}]
    ELSE IF e.op = "end" \/ (s.dead /\ (e.op # "crash" \/ ~Has(s, "dur"))) THEN [s |-> s, v |-> {}, dev |-> {}, note |-> {}]
    ELSE IF e.op = "crash" THEN
         \* C14: the image a power cut leaves after the first e.p entries of the device write log
@@ -411,7 +413,11 @@ Step(s, e) ==
         \* an injected storage fault (C09 judges those traces): only an explicit flush has a defined continuation here: if it fails
         \* nothing is promised, and if the library reports success in spite of the fault its promise (C14) stands
         \* (the status-byte rules of C12 need no model: they stay in force, see the PM step)
-        [s |-> [s EXCEPT !.dead = TRUE, !.pm12 = TRUE], v |-> {}, dev |-> {}, note |-> {"FAULT"}]
+        \* (a call that reports success although a device call failed has swallowed the error - C09's business - and claims to have done
+        \*  its work: the model-free structural clauses stay in force for the images that follow)
+        [s |-> [s EXCEPT !.dead = TRUE, !.pm12 = TRUE, !.pm = (e.r.k = "ok"), !.raw = IF Has(e, "raw") /\ e.raw.ok THEN e.raw ELSE s.raw,
+                         !.D = IF Has(e, "raw") /\ e.raw.ok THEN Derive(e.raw, s.oem) ELSE s.D],
+         v |-> IF Has(e, "raw") /\ e.raw.ok THEN Tag("C03.link_free", LinksToUsed(Derive(e.raw, s.oem).F)) ELSE {}, dev |-> {}, note |-> {"FAULT"}]
    ELSE IF e.r.k \in {"panic", "hang"} THEN
         [s |-> [s EXCEPT !.dead = TRUE], v |-> {IF e.r.k = "panic" THEN "C00.panic" ELSE "C00.hang"}, dev |-> {}, note |-> {}]
    ELSE IF Has(e, "raw") /\ ~e.raw.ok THEN
